@@ -72,12 +72,13 @@ static int xlog[MAXLOG], xn;                 /* clear callbacks */
 static int acc[MAXE], nacc;
 static struct cstl_hash * cur;
 
+static int vsign = 1;   /* sign of the visitor's non-zero answer (header vsign); the result is printed times vsign */
 static int visit_c(const void * e, void * p)
 {
     (void)p;
     if (vn < MAXLOG) vlog[vn] = idof(e);
     vn++;
-    return (vstop > 0 && vn == vstop) ? vstop : 0;
+    return (vstop > 0 && vn == vstop) ? vsign * vstop : 0;
 }
 static int visit_m(void * e, void * p) { return visit_c(e, p); }
 static void release(struct elem * x)
@@ -186,7 +187,7 @@ static void run_case(const struct h_case * c)
 {
     int i, k, started = 0;
 
-    nkeys = 0; ntabs = 1;
+    nkeys = 0; ntabs = 1; vsign = 1;
     memset(pool, 0, sizeof(pool));
     ha_reset();
     /* a case takes milliseconds; a broken library that loops must not hold up the run for
@@ -204,6 +205,7 @@ static void run_case(const struct h_case * c)
             continue;
         }
         if (h_weq(l, 0, "ntabs")) { ntabs = a; continue; }
+        if (h_weq(l, 0, "vsign")) { vsign = a < 0 ? -1 : 1; continue; }
         if (h_weq(l, 0, "fail")) {
             for (k = 1; k < l->nw; k++) { long o = (long)h_int(l, k); if (o >= 0 && o < (long)sizeof(ha_fail)) ha_fail[o] = 1; }
             continue;
@@ -267,17 +269,17 @@ static void run_case(const struct h_case * c)
             int r;
             vstop = b;
             ha_active = 1; r = cstl_hash_foreach(h, visit_m, NULL); ha_active = 0;
-            printf("ok %d", r);
+            printf("ok %d", vsign * r);
         } else if (h_weq(l, 0, "foreach_erase")) {
             int r;
             vstop = b;
             ha_active = 1; r = cstl_hash_foreach(h, visit_erase, NULL); ha_active = 0;
-            printf("ok %d", r);
+            printf("ok %d", vsign * r);
         } else if (h_weq(l, 0, "foreach_const")) {
             int r;
             vstop = b;
             ha_active = 1; r = cstl_hash_foreach_const(h, visit_c, NULL); ha_active = 0;
-            printf("ok %d", r);
+            printf("ok %d", vsign * r);
         } else if (h_weq(l, 0, "clear")) {
             ha_active = 1; cstl_hash_clear(h, b ? clr : NULL); ha_active = 0;
             printf("ok");
